@@ -50,7 +50,17 @@ def _dt(ms, form="utc"):
     return t
 
 
-def _iso(ms):
+def _iso(ms, form="z"):
+    """a command-line time identifier for the instant ms (whole seconds): ISO 8601 in UTC, without zone (= UTC),
+    with another UTC offset, or a Unix time stamp"""
+    if form == "naive":
+        return _dt(ms).strftime("%Y-%m-%dT%H:%M:%S")
+    if form in ("+0530", "-0800"):
+        t = _dt(ms, form)
+        z = t.strftime("%z")
+        return t.strftime("%Y-%m-%dT%H:%M:%S") + z[:3] + ":" + z[3:]
+    if form == "unix":
+        return "%d" % (ms // 1000)
     return _dt(ms).strftime("%Y-%m-%dT%H:%M:%SZ")
 
 
@@ -543,6 +553,7 @@ def _gen_c18(rng, tier, i):
             chs = [",".join(chs)]
     plan = {"engine": "lssim", "tree": entries, "recs": recs, "cmd": cmd, "flags": flags, "chs": chs,
             "src_alias": rng.random() < 0.25,
+            "timeform": rng.choice(["z", "z", "naive", "+0530", "-0800", "unix"]), "end_relative": rng.random() < 0.2,
             "only": rng.random() < 0.2, "reverse": rng.random() < 0.3, "symbolic": cmd == "ln" and rng.random() < 0.5,
             "start": None, "end": None, "readdir_seed": rng.randrange(2**32)}
     if rng.random() < 0.5:
@@ -569,10 +580,14 @@ def _args_for(plan, src, dest):
         a.append("--only")
     if plan["reverse"]:
         a.append("-R")
+    tf = plan.get("timeform", "z")
     if plan["start"] is not None:
-        a += ["-s", _iso(plan["start"])]
+        a += ["-s", _iso(plan["start"], tf)]
     if plan["end"] is not None:
-        a += ["-e", _iso(plan["end"])]
+        if plan.get("end_relative") and plan["start"] is not None and plan["end"] >= plan["start"]:
+            a += ["-e", "+%d" % ((plan["end"] - plan["start"]) // 1000)]
+        else:
+            a += ["-e", _iso(plan["end"], tf)]
     f = plan["flags"]
     if not f["include_drf"]:
         a.append("--nodrf")
